@@ -309,6 +309,38 @@ where
                     apply(&mut model, Point::new(x, y), c, &mut xs_mod, &mut overwritten);
                 }
             }
+            _ if d.derived(0xf111 + step as u64, 3) == 0 => {
+                // `fill_contiguous` called directly, with an exact, short or over-long colour stream whose
+                // size_hint has one of the shapes of `gen::stream_route`
+                let area = if huge {
+                    Rectangle::new(Point::new(coord(d, w).clamp(-100_000, 100_000) - 2, coord(d, h).clamp(-100_000, 100_000) - 2), Size::new(d.u(0, 9), d.u(0, 4)))
+                } else {
+                    Rectangle::new(Point::new(d.i(-3, w + 1), d.i(-3, h + 1)), Size::new(d.u(0, if mid { 101 } else { 8 }), d.u(0, 4)))
+                };
+                let full = (area.size.width * area.size.height) as usize;
+                let n = match d.u(0, 3) {
+                    0 => full.saturating_sub(d.u(1, 5) as usize),
+                    1 => full + d.u(1, 5) as usize,
+                    _ => full,
+                };
+                let mut x = d.raw() | 1;
+                let colors: Vec<C> = (0..n)
+                    .map(|_| {
+                        x ^= x << 13;
+                        x ^= x >> 17;
+                        x ^= x << 5;
+                        let mask = if bpp >= 32 { u32::MAX } else { (1u32 << bpp) - 1 };
+                        C::from(C::Raw::from_u32(x & mask))
+                    })
+                    .collect();
+                if want {
+                    log.push(format!("fill_contiguous({:?}, {} colours)", area, n));
+                }
+                fb.fill_contiguous(&area, crate::gen::stream_route(&colors, (n as u32).wrapping_add(step))).unwrap();
+                for (p, c) in area.points().zip(colors.iter().copied()) {
+                    apply(&mut model, p, c, &mut xs_mod, &mut overwritten);
+                }
+            }
             _ => {
                 // a raw image of the same colour type (little endian, MSB first)
                 let (iw, ih) = (d.u(0, if mid { 101 } else { 6 }), d.u(0, 3));
@@ -402,7 +434,7 @@ where
     }
     // the same onto a target that shows a window only and skips the hidden colours with `nth`
     let win = Rectangle::new(at + Point::new(d.i(0, w.min(12)), d.i(0, h.min(12))), Size::new(d.u(0, 9), d.u(1, 9)));
-    let mut skipping = crate::props::c09::SkipT::<C> { window: win, map: Map::new() };
+    let mut skipping = crate::props::c09::SkipT::<C> { window: win, map: Map::new(), mode: d.derived(0x5c1c, 4) as u8, drained: vec![] };
     fb.draw_image_onto_skipping(&mut skipping, at);
     let expected_win: Map<C> = expected.iter().filter(|(k, _)| win.contains(Point::new(k.0, k.1))).map(|(k, v)| (*k, *v)).collect();
     if let Some(df) = diff_maps("model restricted to the window", &expected_win, &format!("drawing as_image() onto a target that skips hidden colours (window {:?})", win), &skipping.map) {
